@@ -2,6 +2,10 @@
 # Offline set-up: parse every specification module and run the binding self-test.
 set -e
 cd "$(dirname "$0")"
+# all scratch (also the JVM's) under one directory that is removed at the end
+SCRATCH="$(mktemp -d /tmp/pv-setup-XXXXXX)"
+trap 'rm -rf "$SCRATCH"' EXIT
+export TMPDIR="$SCRATCH" JAVA_TOOL_OPTIONS="-Djava.io.tmpdir=$SCRATCH"
 for f in spec/*.tla; do
   m=$(basename "$f")
   out=$(cd spec && tla-sany "$m" 2>&1) || { echo "$out"; exit 1; }
